@@ -252,9 +252,12 @@ MaxConcurrency or with a MaxConcurrency of at least the number of branches (one 
   event: `pquiet`); (c) the measure `mu2` and the count `Cons2.phi` with the branches not yet launched accounted for; (d) the
   three handler lemmas that are new: the end of a branch that completes a batch (`advance_hold` publishing the re-entry
   event — today it asks for `batch_not_done`), the delivery of the re-entry event, its deferred handler (`flat_launch` for a
-  later batch).  The quirk-free model also needs one correction first: the completion of the LAST batch must not publish a
-  re-entry event (`from_ + mc < width`), which it does today when a crash has wiped the join and the last batch is refilled
-  before the earlier held events are redelivered.
+  later batch).  One more thing is in the way: when a crash has wiped the join and the LAST batch is refilled before the
+  earlier held events are redelivered, the quirk-free model publishes a re-entry event for a batch beyond the last one
+  (`from_ + mc = width`; the example "a re-entry event beyond the last batch" below).  It is harmless — it launches nothing,
+  or is dropped when it is delivered after the end — but it is still in the event queue when the terminal notification is
+  published, which `Cons2.psi1` (notification ⇒ empty event queue) excludes: either the model gets the guard
+  `from_ + mc < width` (all proofs here still build with it) or `psi1` is weakened to "only such events are left".
 * fan-out states nested in branches (the crash-safe hand-over of a nested join's held events to the enclosing join), and
 * synchronous child executions (a second execution whose terminal answer is a message of the reply queue). -/
 theorem crash_safe_partial (sk : Sk) (hsk : sk.flat = true) : CrashSafe sk :=
@@ -407,6 +410,17 @@ example : (Asl.Crash.run Asl.Crash.Quirks.none
         (.cons (.par 0 (.cons (.child 0 (.task 0 .done) .done) (.cons (.wait .done) .nil)) .done) .nil)) (.fail none .done)))
       [(.ev 0, none), (.tm 0, some 1), (.ev 0, none), (.tm 0, none), (.ev 1, some 0), (.ev 1, none), (.crash, none),
        (.ev 2, none), (.ev 1, none)]).isSome = true := by
+  decide +kernel
+/-- a re-entry event beyond the last batch (see `crash_safe_partial`): a Map with MaxConcurrency 1 over two items, the engine
+dies once the second item is launched, the second item ends first: a re-entry event for slot 2 of 2 is published; when the
+first item's event has been redelivered the execution has ended (one notification) with that event still queued; the run ends
+all the same -/
+example :
+    ((Asl.Crash.run Asl.Crash.Quirks.none (Asl.Crash.init (.par 1 (.cons (.step .done) (.cons (.step .done) .nil)) .done))
+      ([Asl.Crash.Op.ev 0, .tm 0, .ev 1, .ev 2, .tm 2, .crash, .ev 3, .ev 1].map (fun o => (o, none)))).map
+        (fun c => (c.evq.map (fun m => match m.kind with | .reenter _ s _ _ => some s | _ => none), c.notes,
+          (Asl.Crash.drain Asl.Crash.Quirks.none 100 c).evq.length, (Asl.Crash.drain Asl.Crash.Quirks.none 100 c).notes))) =
+      some ([some 2], 1, 0, 1) := by
   decide +kernel
 /-- beyond the proved class, by computation: a Map with MaxConcurrency 1 over two items (Task, then step) with a crash
 after the second batch was started — the crash-safe protocol does not start the batch again (two requests), the engine's
